@@ -5,6 +5,7 @@
 // call is replaced by a function that records every batch and can park on demand.
 //
 // Input  : ((prods (kind env task)*) (park k*) (script op*))   |   (storm N)   |   (registry …) — see registry.go
+//	        |   (birth …) — Close() within the start-up latency of the two workers, see birth.go
 //
 //	prods   producer i publishes payload type `kind` (index in the type switch of
 //	        internalEventToKafkaEvent) with environment id number `env` and task id number
@@ -31,10 +32,12 @@
 //	        A run always ends with: join, close (if not yet called), release everything, wait for Close.
 //	(storm N) N fresh writers, nothing published, Close at a jittered instant right after construction.
 //
-// Obs    : ((accepted a0 a1 …) (batches ((p seq key)…)…) (close returned|hung) (left chan buf) (inflight n))
+// Obs    : ((accepted a0 a1 …) (batches ((p seq key)…)…) (close returned|hung) (left chan buf) (inflight n) (atreturn w late))
 //
 //	        | (storm N ok a hung b)
-//	        with hold ops or (cap N) a sixth element (snaps (snap (acc a0 a1 …) (chan n) (hand h) (buf n) (written n) (blocked p…))…):
+//	        atreturn: what the goroutine that called Close() saw right after the call returned — w = events that HAD BEEN
+//	        handed to the write function by then, late = write calls that began afterwards (0 0 unless Close returned)
+//	        with hold ops or (cap N) a seventh element (snaps (snap (acc a0 a1 …) (chan n) (hand h) (buf n) (written n) (blocked p…))…):
 //	        per snapshot the WriteEvent calls that have RETURNED per producer, len(channel), whether the batching loop has a
 //	        message in its hand, the buffer's length, events handed to the write function so far, producers waiting in the send
 //	batches in write-call order as handed to the write function; key coded 0 = none, n = "e<n>",
@@ -321,6 +324,9 @@ func runImpl(input string) (string, error) {
 	if in.At(0).Str() == "registry" {
 		return runRegistry(input)
 	}
+	if in.At(0).Str() == "birth" {
+		return runBirth(input)
+	}
 	type prod struct{ kind, env, task int }
 	var prods []prod
 	for _, p := range in.At(0).List[1:] {
@@ -388,13 +394,14 @@ func runImpl(input string) (string, error) {
 	}
 	closeDone := make(chan struct{})
 	closeCalled := false
-	inflightAtReturn := -1
+	inflightAtReturn, writtenAtReturn, callsAtReturn := -1, 0, 0
 	doClose := func() {
 		closeCalled = true
 		go func() {
 			r.w.Close()
+			// the snapshot of the caller of Close(), taken right after the call returned
 			r.mu.Lock()
-			inflightAtReturn = r.inflight
+			inflightAtReturn, writtenAtReturn, callsAtReturn = r.inflight, r.nWritten, r.calls
 			r.mu.Unlock()
 			close(closeDone)
 		}()
@@ -581,12 +588,12 @@ func runImpl(input string) (string, error) {
 		}
 		bs.Add(bn)
 	}
-	infl := 0
+	infl, wAt, late := 0, 0, 0
 	if status == "returned" {
-		infl = inflightAtReturn
+		infl, wAt, late = inflightAtReturn, writtenAtReturn, r.calls-callsAtReturn
 	}
 	obs := sx.L(acc, bs, sx.L(sx.A("close"), sx.A(status)), sx.L(sx.A("left"), sx.I(cl), sx.I(bl)),
-		sx.L(sx.A("inflight"), sx.I(infl)))
+		sx.L(sx.A("inflight"), sx.I(infl)), sx.L(sx.A("atreturn"), sx.I(wAt), sx.I(late)))
 	if usesHold {
 		obs.Add(sx.L(append([]*sx.Node{sx.A("snaps")}, hs.snaps...)...))
 	}
@@ -774,6 +781,8 @@ func generate(tier string, r *rng.R) []fw.Case {
 	cs = append(cs, genFullCases(tier, r.Fork())...)
 	// the writer registry of core/the (see registry.go); after everything else for the same reason
 	cs = append(cs, genRegistryCases(tier, r.Fork())...)
+	// Close() within the start-up latency of the two workers (see birth.go); after everything else for the same reason
+	cs = append(cs, genBirthCases(tier, r.Fork())...)
 	return cs
 }
 
@@ -787,6 +796,9 @@ func nontrivial(input, obs string) bool {
 	}
 	if in.At(0).Str() == "registry" {
 		return registryNontrivial(in, obs)
+	}
+	if in.At(0).Str() == "birth" {
+		return birthNontrivial(in, obs)
 	}
 	o, err := sx.Parse(obs)
 	if err != nil || o.Len() < 5 {
@@ -808,6 +820,9 @@ func shrinkCands(input string) []string {
 	}
 	if in.At(0).Str() == "registry" {
 		return shrinkRegistry(in)
+	}
+	if in.At(0).Str() == "birth" {
+		return shrinkBirth(in)
 	}
 	var out []string
 	script := in.At(2)
@@ -834,6 +849,7 @@ func shrinkCands(input string) []string {
 
 func init() {
 	fw.RegisterChild(registryChild, registryChildMain)
+	fw.RegisterChild(birthChild, birthChildMain)
 	fw.Register(&fw.Property{
 		ID:         "C19",
 		Generate:   generate,
@@ -851,7 +867,11 @@ func init() {
 			"released together by a spinning barrier (the.EventWriterWithTopic, real KafkaWriters on an in-process broker), every caller publishes through the writer it was handed " +
 			"(in 2/3 of the cases it looks the writer up again and publishes a second event), then the.ClearEventWriters; broker held until shutdown begins / latencies 0..1 ms; " +
 			"observed per (round, topic): which writer every caller was handed (pointer identity), which of them are closed after the shutdown, what the broker had received by then; " +
-			"non-trivial = at least two events accepted and at least one batch written (storm: >= 100 writers; registry: >= 2 callers per topic); distinct by input text",
+			"and Close() within the START-UP LATENCY of the two workers (one child process per case): 20..40 rounds (Ps saturated: 4..8; thorough ..120), in each a fresh writer is published to (1..3 producers, " +
+			"0..250 events each) and closed at once by ONE goroutine that does not block or yield in between, in a process with GOMAXPROCS 1 (the workers the constructor has just spawned cannot have been " +
+			"scheduled when Close() is called), or 2..4 with idle Ps (scheduler latency only) or with 2..3 goroutines per P spinning; write latencies 0..300 us; spin 0..100000 iterations before Close; " +
+			"every observation carries what the caller of Close() saw right after the call returned: events handed to the write function by then, write calls in progress, and the write calls that began afterwards; " +
+			"non-trivial = at least two events accepted and at least one batch written (storm: >= 100 writers; registry: >= 2 callers per topic; birth: a round with >= 2 events); distinct by input text",
 		Shrink:  shrinkCands,
 		Workers: 4,
 		TrustedBase: []string{
@@ -859,6 +879,7 @@ func init() {
 			"hook common/event/verif_hooks.go (NewWriterForVerif builds the struct NewWriterWithTopic builds with the broker call replaced; VerifSnapshot is read-only)",
 			"'channel full' scenarios: reflection on the unexported fields toBatchMessagesChan (len/cap), messageBuffer.cond.L (the FIFO's own lock, taken and released to hold the batching loop up) and messageBuffer.buffer (len, under that lock); goroutine dumps to see who waits where; optional hook method (*KafkaWriter).VerifNewWithCap (common/event/verif_hooks_cap.go: NewWriterForVerif with the channel capacity as a parameter)",
 			"Go runtime semantics of channels, sync.Cond, sync.WaitGroup as modelled (no spurious wake-ups, Signal/Broadcast not remembered)",
+			"birth stream: runtime.GOMAXPROCS and spinning goroutines in a child process as the only means of delaying the workers' first scheduling (no hook); the at-return snapshot is taken by the goroutine that called Close(), under the recording write function's own mutex, as its next action; go/ast reading of Close / the two loops / the constructor for the WaitGroup discipline (Add(2) before close(chan) before Wait; one Done per worker, last; two go statements)",
 			"registry stream: an in-process kafka.RoundTripper (one partition per topic, records what produce requests carry) installed through the exported Transport field of the embedded kafka.Writer, BatchTimeout set to 1 ms, both before the writer's first use; kafka-go's Writer between the write function and that broker; 'closed' = the embedded kafka.Writer answers io.ErrClosedPipe; go/ast reading of core/the/*.go (mutex kind, Lock/defer Unlock as the first two statements, every use of the map inside such a function)",
 		},
 		Assumptions: []string{
